@@ -202,7 +202,10 @@ def decimal_python(mods, scns, unit):
         for i, tk in enumerate(s["ticks"]):
             if tk["refused"]:
                 continue
-            readings = [runtime.StampedReading(r["t"] * unit, r["key"], id=r["id"]) for r in tk["rs"]]
+            objs = {}
+            for r in tk["rs"]:
+                objs.setdefault(r["id"], runtime.StampedReading(r["t"] * unit, r["key"], id=r["id"]))
+            readings = [objs[r["id"]] for r in tk["rs"]]
             n_prev = len(times)
             times += [r["t"] * unit for r in tk["rs"]]
             try:
